@@ -651,10 +651,129 @@ fn gen_opts(rng: &mut Rng, base: &EditorOptions, engine_kind: u8, focus: bool) -
     o
 }
 
+/// C01 (F02 / F03, repaired): Standard-layout key sequences of syllables outside the pool — the system layers
+/// hold no word for them, a word learnt for one of them is its only word
+const C01_EXTRA: [&[KeyCode]; 8] = {
+    use KeyCode::*;
+    [&[H, Space], &[G, Space], &[P, N7], &[Comma, N4], &[I, Space], &[B, N6], &[M, N3], &[T, J, N4]]
+};
+
+/// C01: a whole scenario that leaves a syllable WITHOUT A WORD in the pre-edit buffer (learn the only word of a
+/// syllable, type it — optionally between neighbours that have words —, forget the word again, possibly while a
+/// candidate list is open), under any of the three engines and both phrase-choice directions, followed by the calls
+/// an application can make next (open the list on it, j / k onto it, Tab, Enter, commit, jumps, engine switch,
+/// overflow of a small buffer limit).  Draws from its own stream `r`; None = no such syllable under this layout.
+fn noword_scenario(r: &mut Rng, s: &Session, pool: &[(Syllable, Vec<KeyCode>)], pending: &mut Vec<Op>) -> Option<Op> {
+    use KeyCode::*;
+    let plain = Modifiers::default();
+    let kb = Qwerty;
+    let mut cands: Vec<(Syllable, &[KeyCode])> = vec![];
+    for seq in C01_EXTRA.iter().copied().chain(pool.iter().map(|p| p.1.as_slice())) {
+        let mut l = SyllableEditor::clone(&**s.lay.borrow());
+        l.clear();
+        let mut last = KeyBehavior::Ignore;
+        for k in seq {
+            last = l.key_press(kb.map(*k));
+        }
+        if last == KeyBehavior::Commit && !l.read().is_empty() && s.held_for(&[l.read()]).is_empty() && !cands.iter().any(|c| c.0 == l.read()) {
+            cands.push((l.read(), seq));
+        }
+    }
+    if cands.is_empty() {
+        return None;
+    }
+    let keys_of = |seq: &[KeyCode]| -> Vec<Op> { seq.iter().map(|k| Op::Key(*k, plain)).collect() };
+    let mut seq: Vec<Op> = vec![];
+    let mut o = s.ed.editor_options();
+    let mut change = false;
+    if o.auto_commit_threshold < s.ed.len() + 4 {
+        o.auto_commit_threshold = s.ed.len() + 4 + r.below(6) as usize;
+        change = true;
+    }
+    if r.chance(1, 3) {
+        o.phrase_choice_rearward = !o.phrase_choice_rearward;
+        change = true;
+    }
+    if o.language_mode != LanguageMode::Chinese {
+        o.language_mode = LanguageMode::Chinese;
+        change = true;
+    }
+    if change {
+        seq.push(Op::SetOpts(o));
+    }
+    if r.chance(1, 2) {
+        seq.push(Op::SetEngine(r.below(3) as u8));
+    }
+    let (syl, keys) = *r.pick(&cands);
+    let ch = gen_phrase(r, 1);
+    if r.chance(1, 2) {
+        seq.extend(keys_of(&r.pick(pool).1));
+    }
+    seq.push(Op::Learn(vec![syl], ch.clone()));
+    seq.extend(keys_of(keys));
+    if r.chance(1, 3) {
+        seq.extend(keys_of(&r.pick(pool).1));
+    }
+    // the word may go away under an open list (on the syllable itself or on a neighbour)
+    match r.below(8) {
+        0 => seq.push(Op::Key(Down, plain)),
+        1 => seq.push(Op::StartSel),
+        2 => {
+            seq.push(Op::Key(Left, plain));
+            seq.push(Op::Key(Down, plain));
+        }
+        3 => seq.push(Op::Key(*r.pick(&[Left, Home, End]), plain)),
+        _ => {}
+    }
+    seq.push(Op::Unlearn(vec![syl], ch));
+    for _ in 0..(1 + r.below(4)) {
+        match r.below(20) {
+            0 | 1 | 2 => seq.push(Op::Key(Down, plain)),
+            3 | 4 => seq.push(Op::StartSel),
+            5 => seq.push(Op::Key(J, plain)),
+            6 => seq.push(Op::Key(K, plain)),
+            7 | 8 => seq.push(Op::Key(Tab, plain)),
+            9 => seq.push(Op::Key(Enter, plain)),
+            10 => seq.push(Op::Commit),
+            11 | 12 => seq.push(Op::Jump(r.below(4) as u8)),
+            13 | 14 => seq.push(Op::SetEngine(r.below(3) as u8)),
+            15 => seq.push(Op::Key(*r.pick(&[Left, Right, Home, End]), plain)),
+            16 => seq.push(Op::Key(Space, plain)),
+            17 => {
+                // overflow of a small buffer limit: the word-less syllable is committed by auto-commit
+                o.auto_commit_threshold = r.below(3) as usize;
+                seq.push(Op::SetOpts(o));
+                seq.extend(keys_of(&r.pick(pool).1));
+            }
+            18 => seq.push(Op::Select(*r.pick(&[0usize, 0, 1, 9]))),
+            _ => seq.push(Op::Key(*r.pick(&[Backspace, Del, Esc]), plain)),
+        }
+    }
+    seq.reverse();
+    let first = seq.pop().unwrap();
+    pending.extend(seq);
+    Some(first)
+}
+
 fn gen_op(rng: &mut Rng, s: &Session, pool: &[(Syllable, Vec<KeyCode>)], pending: &mut Vec<Op>, uniform: bool, focus: bool, cand: Option<&CandView>) -> Op {
+    gen_op_c01(rng, s, pool, pending, uniform, focus, cand, None)
+}
+
+/// `gen_op` + C01's word-less-syllable scenarios drawn from the stream `c01` (None = never)
+#[allow(clippy::too_many_arguments)]
+fn gen_op_c01(rng: &mut Rng, s: &Session, pool: &[(Syllable, Vec<KeyCode>)], pending: &mut Vec<Op>, uniform: bool, focus: bool, cand: Option<&CandView>, c01: Option<&mut Rng>) -> Op {
     use KeyCode::*;
     if let Some(op) = pending.pop() {
         return op;
+    }
+    // C01: in the sessions chosen for it (own stream, the other sessions are unchanged) about every tenth choice made
+    // in plain Entering starts a word-less-syllable scenario
+    if let Some(r) = c01 {
+        if s.ed.is_entering() && s.lay.borrow().is_empty() && r.chance(1, 10) {
+            if let Some(op) = noword_scenario(r, s, pool, pending) {
+                return op;
+            }
+        }
     }
     let plain = Modifiers::default();
     if uniform {
@@ -1122,12 +1241,13 @@ fn main() {
     out.stat("pool_syllables", pool.len());
     let kb = Qwerty;
     let (mut n_ops, mut n_panic, mut n_sel_steps, mut n_uniform) = (0u64, 0u64, 0u64, 0u64);
-    let mut n_hang_guard = 0u64;
     let mut state_hist = [0u64; 4];
     let mut beh_hist = [0u64; 4];
     // C01
     let (mut n_hang, mut n_getter_fail, mut n_noword_steps, mut n_noword_sessions, mut max_lookups) = (0u64, 0u64, 0u64, 0u64, 0u64);
     let mut noword_via: std::collections::BTreeMap<String, u64> = Default::default();
+    let mut noword_steps_by: std::collections::BTreeMap<String, u64> = Default::default();
+    let mut n_c01_sessions = 0u64;
     let (mut n_engine_switch_mid, mut n_engine_switch_partial, mut n_unlearn_hit_buffered) = (0u64, 0u64, 0u64);
 
     for sid in 0..n_sessions {
@@ -1209,6 +1329,12 @@ fn main() {
         // the open candidate list as reported after the previous operation (= before this one)
         let mut cand_pre: Option<CandView> = None;
         let mut noword_seen = false;
+        // C01: every fourth session runs word-less-syllable scenarios (own stream: the other sessions are unchanged)
+        let mut rng_c01 = Rng::new(seed.wrapping_mul(9_999_991).wrapping_add(sid));
+        let c01_session = rng_c01.chance(1, 4);
+        if c01_session {
+            n_c01_sessions += 1;
+        }
 
         let mut script18 = script_name.as_ref().filter(|n| *n != "c05").map(|_| script_c18::Script::new(sid, thorough));
         let mut script05 = script_name.as_ref().filter(|n| *n == "c05").map(|_| script_c05::Script::new(sid, thorough));
@@ -1218,22 +1344,14 @@ fn main() {
                 (_, Some(sc)) => Some(sc.next(&s.ed.verif_snapshot())),
                 _ => None,
             };
-            let mut op = match scripted {
+            let op = match scripted {
                 Some(Some(op)) => op,
                 Some(None) => break,
-                None => gen_op(&mut rng, &s, &pool, &mut pending, uniform, focus, cand_pre.as_ref()),
+                None => gen_op_c01(&mut rng, &s, &pool, &mut pending, uniform, focus, cand_pre.as_ref(), if c01_session { Some(&mut rng_c01) } else { None }),
             };
-            // `PhraseSelector::next` (Down / Space at the last page) never returns when no range starting
-            // at the highlighted syllable has a phrase any more (a user-only word removed while the list
-            // is open; C01's hang class).  The C07 profile steers around it (it removes displayed candidates
-            // all the time and a hang ends the session); the other runs let it happen: C01's look-up fuel
-            // (`FuelDict`) turns it into the observable outcome "hang".
-            if let Op::Key(KeyCode::Down | KeyCode::Space, _) = op {
-                if focus && s.ed.is_selecting() && s.ed.symbols().iter().filter_map(|x| x.to_syllable()).any(|x| s.held_for(&[x]).is_empty()) {
-                    n_hang_guard += 1;
-                    op = Op::Key(KeyCode::Esc, Modifiers::default());
-                }
-            }
+            // (C01's former hang class — `PhraseSelector::next` never returned when no range at the highlighted
+            // syllable had a phrase — is repaired (0f255ea): the C07 profile no longer steers around Down / Space
+            // on a word-less syllable)
             let ev = match &op {
                 Op::Key(c, m) => Some(kb.map_with_mod(*c, *m)),
                 _ => None,
@@ -1264,6 +1382,28 @@ fn main() {
             let no_word_pre = s.no_word(&pre);
             if no_word_pre.is_some() {
                 n_noword_steps += 1;
+                // … and under which engine / choice direction / state, with which operation
+                let o = s.ed.editor_options();
+                let what = match &op {
+                    Op::Key(c @ (KeyCode::Down | KeyCode::Space | KeyCode::Tab | KeyCode::Enter | KeyCode::J | KeyCode::K | KeyCode::Backspace | KeyCode::Del | KeyCode::Esc), m) if *m == Modifiers::default() => format!("op_key_{:?}", c).to_lowercase(),
+                    Op::Key(..) => "op_key_other".into(),
+                    Op::Select(_) => "op_select".into(),
+                    Op::StartSel => "op_startsel".into(),
+                    Op::Commit => "op_commit".into(),
+                    Op::Jump(j) => format!("op_jump{}", j),
+                    Op::SetEngine(k) => format!("op_setengine{}", k),
+                    Op::SetOpts(_) => "op_setopts".into(),
+                    Op::Learn(..) | Op::Unlearn(..) => "op_learn_unlearn".into(),
+                    _ => "op_other_api".into(),
+                };
+                for k in [
+                    format!("engine{}", s.engine_kind),
+                    (if o.phrase_choice_rearward { "choice_rearward" } else { "choice_forward" }).to_string(),
+                    (if st_ix == 2 { "list_open" } else { "list_closed" }).to_string(),
+                    what,
+                ] {
+                    *noword_steps_by.entry(k).or_insert(0) += 1;
+                }
             }
             match &op {
                 Op::SetEngine(k) if *k != s.engine_kind && !s.ed.is_empty() => {
@@ -1468,6 +1608,10 @@ fn main() {
     out.stat("c01_accessor_failures", n_getter_fail);
     out.stat("c01_steps_from_noword_state", n_noword_steps);
     out.stat("c01_sessions_reaching_noword_state", n_noword_sessions);
+    out.stat("c01_sessions_with_noword_scenarios", n_c01_sessions);
+    for (k, n) in &noword_steps_by {
+        out.stat(&format!("c01_steps_from_noword_state.{}", k), n);
+    }
     for (k, n) in &noword_via {
         out.stat(&format!("c01_noword_state_entered_by.{}", k), n);
     }
@@ -1478,7 +1622,6 @@ fn main() {
     out.stat("c01_lookup_fuel", LOOKUP_FUEL);
     c17_stats.print(&mut out);
     out.stat("profile_c07", focus as u8);
-    out.stat("down_keys_replaced_by_hang_guard", n_hang_guard);
     oracle_c07::finish(&mut out);
     oracle_c02::stats(&mut out);
     out.flush();
